@@ -14,7 +14,7 @@ pub fn meta() -> Meta {
     Meta {
         rule: "for each of the 40 typed variants, boundary-biased field tuples v of the declarative reference schema: (parse) the reference encoding of a \
 single-record message must parse and the fields observed through public fields + raw-byte hooks must equal v; (write) build_bytes_vec of the library value \
-built from v must equal the reference encoding byte for byte (TYPE code included). Structural rejections: LOC version != 0, SVCB keys equal/decreasing, \
+built from v must equal the reference encoding byte for byte (TYPE code included); (owned) the into_owned() copies of the parsed values must show the same fields and serialise to the same encoding. Structural rejections: LOC version != 0, SVCB keys equal/decreasing, \
 NSEC windows equal/decreasing, inner lengths (char-string, option, SvcParam, bitmap) overrunning the RDATA (with and without bytes following in the \
 message) must be rejected. The repository's dnspython-produced vectors are decoded by both sides and compared. non-trivial = every tuple; distinct = \
 hash of (type, tuple)",
